@@ -1,5 +1,5 @@
 WRAPS = ['psGetEntropy', 'psGetTime', 'psDiffMsecs', 'psCompareTime', 'time',
-         'psAesInitGCM', 'psAesReadyGCM', 'psAesReadyGCMRandomIV', 'psAesEncryptGCM', 'psChacha20Poly1305IetfInit', 'psChacha20Poly1305IetfEncrypt']
+         'psAesInitGCM', 'psAesReadyGCM', 'psAesReadyGCMRandomIV', 'psAesEncryptGCM', 'psAesGetGCMTag', 'psAesDecryptGCM', 'psChacha20Poly1305IetfInit', 'psChacha20Poly1305IetfEncrypt']
 PROP = dict(
     level='exploration',
     level_text='History invariant over a link-time ledger of every AEAD seal (key, nonce, AAD digest, plaintext digest) plus wire parsing of CBC explicit IVs and an entropy tap, over generated send/receive/alert/retry/retransmission histories for every AEAD and CBC suite x version.',
